@@ -141,7 +141,17 @@ pub fn gen_wild(t: &mut Tape, orphan_suffix: bool) -> WildOut {
                         _ => {
                             let np = 1 + sg.t.pick(3);
                             // duplicate parameter names and parameters named like the function are allowed
-                            let params: Vec<Name> = (0..np).map(|_| names[sg.t.pick(names.len())].clone()).collect();
+                            // (also the same name in another letter case: still the same variable)
+                            let params: Vec<Name> = (0..np)
+                                .map(|_| {
+                                    let n = names[sg.t.pick(names.len())].clone();
+                                    if sg.t.chance(1, 2) {
+                                        super::names::recase(&n, sg.t)
+                                    } else {
+                                        n
+                                    }
+                                })
+                                .collect();
                             let body = sg.block(1, true);
                             Stmt::Function { name: x.clone(), params, body }
                         }
